@@ -2,6 +2,7 @@ package props
 
 import (
 	"bytes"
+	"context"
 	"fmt"
 	"strings"
 
@@ -336,12 +337,163 @@ func c17Scenario(clients []gridClient) *explore.Scenario {
 	}
 }
 
+// c17QUIC — the same rule over QUIC: a UQUICClient whose spec shares X25519 only, against the package's
+// QUICServer preferring P-256. The two Initial-level ClientHellos must be identical extension by extension
+// except key_share (cookie, padding) — in particular quic_transport_parameters, whose GREASE entries are
+// drawn at random when the extension is first encoded.
+func c17QUIC() *explore.Scenario {
+	specs := c23Specs()
+	withGrease := func() *tls.ClientHelloSpec {
+		sp := specs[1].mk()
+		for _, e := range sp.Extensions {
+			if q, ok := e.(*tls.QUICTransportParametersExtension); ok {
+				q.TransportParameters = tls.TransportParameters{
+					tls.MaxIdleTimeout(30000), tls.InitialMaxData(15728640), tls.InitialSourceConnectionID([]byte{}),
+					&tls.GREASETransportParameter{},
+					&tls.VersionInformation{ChoosenVersion: 1, AvailableVersions: []uint32{tls.VERSION_GREASE, 1}, LegacyID: true},
+				}
+			}
+		}
+		return sp
+	}
+	type named struct {
+		name string
+		mk   func() *tls.ClientHelloSpec
+	}
+	var menu []named
+	for _, sp := range specs {
+		menu = append(menu, named{sp.name, sp.mk})
+	}
+	menu = append(menu, named{"quic-chrome-like+random-grease-parameter+VERSION_GREASE", withGrease})
+	return &explore.Scenario{
+		Name:    "quic-hello-retry-request",
+		Workers: 1,
+		Run: func(x *explore.X) (r explore.Result) {
+			sp := menu[x.Choose("spec", len(menu))]
+			what := fmt.Sprintf("quic spec=%s, server prefers P-256", sp.name)
+			ccfg := peer.ClientConfig("example.com")
+			ccfg.MinVersion = tls.VersionTLS13
+			ccfg.NextProtos = []string{"h3"}
+			scfg := peer.ServerConfig()
+			scfg.MinVersion = tls.VersionTLS13
+			scfg.NextProtos = []string{"h3"}
+			scfg.CurvePreferences = []tls.CurveID{tls.CurveP256}
+			srv := tls.QUICServer(&tls.QUICConfig{TLSConfig: scfg})
+			srv.SetTransportParameters([]byte{0x04, 0x04, 0x80, 0x10, 0x00, 0x00})
+			defer srv.Close()
+			q := tls.UQUICClient(&tls.QUICConfig{TLSConfig: ccfg}, tls.HelloCustom)
+			defer q.Close()
+			var cerr, serr error
+			done := false
+			var initial [][]byte
+			if pm := catch(func() {
+				if cerr = q.ApplyPreset(sp.mk()); cerr != nil {
+					return
+				}
+				if serr = srv.Start(context.Background()); serr != nil {
+					return
+				}
+				if cerr = q.Start(context.Background()); cerr != nil {
+					return
+				}
+				for round := 0; round < 10 && cerr == nil && serr == nil; round++ {
+					progress := false
+					for {
+						e := q.NextEvent()
+						if e.Kind == tls.QUICNoEvent {
+							break
+						}
+						switch e.Kind {
+						case tls.QUICWriteData:
+							progress = true
+							if e.Level == tls.QUICEncryptionLevelInitial {
+								initial = append(initial, append([]byte(nil), e.Data...))
+							}
+							if serr = srv.HandleData(e.Level, append([]byte(nil), e.Data...)); serr != nil {
+								break
+							}
+						case tls.QUICHandshakeDone:
+							done = true
+						case tls.QUICTransportParametersRequired:
+							q.SetTransportParameters([]byte{})
+						}
+					}
+					for serr == nil {
+						e := srv.NextEvent()
+						if e.Kind == tls.QUICNoEvent {
+							break
+						}
+						if e.Kind == tls.QUICWriteData {
+							progress = true
+							if cerr = q.HandleData(e.Level, append([]byte(nil), e.Data...)); cerr != nil {
+								break
+							}
+						}
+					}
+					if !progress {
+						break
+					}
+				}
+			}); pm != "" {
+				r.Violate("C17|quic|panic", "%s: %s", what, truncStr(pm, 300))
+				return
+			}
+			r.Nontrivial = true
+			r.Class = what
+			if len(initial) != 2 {
+				// a spec that already shares P-256 is answered without a retry
+				r.Obs = fmt.Sprintf("no-retry|initial-messages=%d|done=%v", len(initial), done)
+				r.Count("quic_no_retry", 1)
+				return
+			}
+			r.Count("quic_retries_compared", 1)
+			h1, e1 := wire.ParseClientHello(initial[0])
+			h2, e2 := wire.ParseClientHello(initial[1])
+			if e1 != nil || e2 != nil {
+				r.Violate("C17|quic|unparsable", "%s: %v / %v", what, e1, e2)
+				return
+			}
+			strip := func(in []wire.Ext) (out []wire.Ext) {
+				for _, e := range in {
+					if e.Type != 21 && e.Type != 44 { // padding comes and goes with the length, the cookie is new
+						out = append(out, e)
+					}
+				}
+				return
+			}
+			x1, x2 := strip(h1.Exts), strip(h2.Exts)
+			if len(x1) != len(x2) {
+				r.Violate("C17|quic|extension-count", "%s: %d extensions (padding and cookie aside), then %d", what, len(x1), len(x2))
+			} else {
+				for i := range x1 {
+					a, b := x1[i], x2[i]
+					if a.Type != b.Type {
+						r.Violate("C17|quic|extension-order", "%s: extension %d is type %d, then %d", what, i, a.Type, b.Type)
+						break
+					}
+					if a.Type == 51 || a.Type == 44 || a.Type == 21 {
+						continue
+					}
+					if !bytes.Equal(a.Body, b.Body) {
+						r.Violate(fmt.Sprintf("C17|quic|extension-changed|type=%d", a.Type), "%s: extension %d differs between the two ClientHellos: % x / % x", what, a.Type, trunc(a.Body, 40), trunc(b.Body, 40))
+					}
+				}
+			}
+			if !(done || q.ConnectionState().HandshakeComplete) {
+				r.Violate("C17|quic|not-completed", "%s: the handshake did not complete after the retry (client %v, server %v)", what, cerr, serr)
+			}
+			r.Obs = fmt.Sprintf("done=%v|viol=%d", done, len(r.Viol))
+			return
+		},
+	}
+}
+
 func c17Scenarios(thorough bool) []*explore.Scenario {
 	n := 2
 	if thorough {
 		n = 64
 	}
-	return []*explore.Scenario{c17Scenario(c17Clients(n))}
+	return []*explore.Scenario{c17Scenario(c17Clients(n)), c17QUIC()}
 }
 
 func init() {
